@@ -37,7 +37,8 @@ Wild(lang, t) ==
 Ty(lang, t, pos) ==
   CASE t.k = "W" -> IF pos = "top" /\ t.a # <<>> THEN Ty(lang, t.a[1], "top") ELSE Wild(lang, t)
     [] t.k = "V" -> <<t.n>>
-    [] t.k = "P" -> IF pos = "arg" THEN <<RefName(lang, t.n)>> ELSE <<PrimName(t.n)>>
+    \* a primitive type: Java needs the boxed class in argument position; Groovy accepts the primitive name there (it denotes the wrapper)
+    [] t.k = "P" -> IF pos = "arg" /\ lang = "java" THEN <<RefName(lang, t.n)>> ELSE <<PrimName(t.n)>>
     [] t.k = "N" -> <<"Nothing">>
     [] OTHER ->
        IF t.a = <<>> THEN (IF JVM(lang) /\ t.n = "Void" THEN (IF pos = "arg" THEN <<"Void">> ELSE <<"void">>) ELSE <<RefName(lang, t.n)>>)
